@@ -13,12 +13,30 @@
       node in order and every node below the head it read ([C01_walk_*]).
     Over all schedules ([InvStep]): the node a thread publishes its debts in is exclusively
     its own ([C11_exclusive]) and no step panics ([C13_total]).
-    NOT yet proved (partial): the closed statement "no run of any program under any schedule
-    reaches a fault"; it needs the accounting and protection invariants ([Acc*], in progress).
+    Beyond these step theorems (see END-TO-END below for what is now proved over all schedules): the closed statement "no run of any program under any schedule
+    reaches a fault"; it needs the accounting and protection invariants (now proved: see END-TO-END below).
     It is searched on every run by the correspondence (any FAULT line of the real harness's
     arena or of the model is a C01 finding) on 1-3-preemption sweeps, freeze sweeps, grids of
-    earlier failing schedule shapes and generated programs. *)
-From ASModel Require Import Base State Orderings_gen Step Run Progress Hist Local.
+    earlier failing schedule shapes and generated programs. 
+    END-TO-END ([ASModel.Main], all schedules, any number of threads): the theorems below hold for
+    every run from an initial configuration that satisfies [RunOK]: initial values are null or
+    valid addresses; no program calls the verification hook [set_generation] or uses Cache; in
+    every state of the run no generation counter is within 4 of wrapping ([GenBound]: a wrap needs
+    2^62 fallback loads of one thread; the wrap itself is C13), a command's destination handle is
+    empty and the source of a running clone is not dropped (conditions on the TEST PROGRAM, met by
+    every generated program: the model driver checks them on every run and the evidence counts the
+    runs inside this scope); the allocator hands out addresses that are not live, not null and not
+    the empty-slot marker.  The proof is an inductive invariant [Master] made of: node ownership
+    and per-program-point assertions (WF2), reservation counting and generation uniqueness
+    (GenInv), envelope exclusivity (EnvInv), exact accounting (AccInv), slot coverage (ProtInv'),
+    stack typing, and "no thread has faulted", each preserved by every step ([step_Master]).
+    [C01_no_use_after_free]: no thread ever faults and no step of the run touches the count of a
+    destroyed value; [C01_no_fault_events]: no fault event at all when only enabled threads are
+    scheduled; [C01_site_alive]: at every count access the value's count is at least 1.
+*)
+From ASModel Require Import Base State Orderings_gen Step Run Progress Hist Local Inv InvTl InvProto InvStep Sum StepCases.
+From ASModel Require Import GenDefs Gen1 Gen2 Gen EnvDefs Env4 Env AccDefs Acc1 Acc2 Acc3 Acc4 Acc5 Acc6 Acc7 Acc.
+From ASModel Require Import ProtDefs Prot1 Prot11 Prot16 Prot Typed LinDefs Lin2 Lin Safe1 Safe2 Safe7 Safe8 Safe Main.
 
 Theorem C01_dec : forall s a,
   match heap s a with
@@ -72,6 +90,30 @@ Theorem C01_walk_next_node : forall cf s l c old w x, w <> 0 ->
   exists s' e, exec cf s l (P5 c old w) x = (s', l, [e], NGoto (P3 c old (w - 1))).
 Proof. exact walk_next_node. Qed.
 
+Theorem C01_no_use_after_free : forall cf inits progs sched,
+  RunOK cf inits progs sched ->
+  NoFault (run_state cf (init_state inits progs) sched) /\
+  forall te, In te (snd (run cf (init_state inits progs) sched)) ->
+    forall a, ~ In (EvFault (FDeadInc a)) (snd te) /\ ~ In (EvFault (FDeadDec a)) (snd te).
+Proof. exact Main.C01_no_use_after_free. Qed.
+
+Theorem C01_no_fault_events : forall cf inits progs sched,
+  RunOK cf inits progs sched ->
+  (forall k t x, nth_error sched k = Some (t, x) -> enabled (St cf (init_state inits progs) sched k) t = true) ->
+  forall te, In te (snd (run cf (init_state inits progs) sched)) -> forall f, ~ In (EvFault f) (snd te).
+Proof. exact Main.C01_no_fault_events. Qed.
+
+Theorem C01_no_dead_access : forall cf s t x p rest s1 l1 evs nx,
+  AccInv s -> ProtInv' s -> ValOK s -> CloneSrc s ->
+  t_status (thr s t) = Running -> t_stack (thr s t) = p :: rest ->
+  exec cf (sh s) (t_loc (thr s t)) p x = (s1, l1, evs, nx) ->
+  forall a, nx <> NFault (FDeadInc a) /\ nx <> NFault (FDeadDec a).
+Proof. exact no_dead_access. Qed.
+
+Theorem C01_master_invariant : forall cf s t x,
+  GenBound s -> ProgOK s -> alloc_ok s t x -> Master s -> Master (fst (step cf s t x)).
+Proof. exact step_Master. Qed.
+
 Print Assumptions C01_dec.
 Print Assumptions C01_inc.
 Print Assumptions C01_fast_confirm.
@@ -80,3 +122,7 @@ Print Assumptions C01_pay_inc.
 Print Assumptions C01_walk_next_slot.
 Print Assumptions C01_walk_last_slot.
 Print Assumptions C01_walk_next_node.
+Print Assumptions C01_no_use_after_free.
+Print Assumptions C01_no_fault_events.
+Print Assumptions C01_no_dead_access.
+Print Assumptions C01_master_invariant.
